@@ -90,6 +90,10 @@ def check_expm(ctx, A, v, dt, m, kd_h, hermitian):
         exact = expm(dt * A) @ v0
         ctx.close(f'{tag}.exact-when-exhausted', np.linalg.norm(r - exact) / max(np.linalg.norm(exact), nv), 1e-9,
                   f'm={m} >= Krylov dimension {kd_h} but result != expm(dt A) v', detail)
+
+        def later(r=r, exact=exact, nv=nv, tag=tag):
+            ctx.close(f'{tag}.result-still-valid-after-later-calls', np.linalg.norm(r - exact) / max(np.linalg.norm(exact), nv), 1e-9, 'an earlier expm_krylov result was altered by later calls', None)
+        ctx.hold(later)
     else:
         ctx.skip(f'{tag}.exact-when-exhausted')
     # m = 1: result = exp(dt * rayleigh) v exactly
